@@ -114,16 +114,9 @@ Qed.
 Lemma aupper_ascii c : (aupper c <? 128) = (c <? 128).
 Proof. unfold aupper, is_alower. destruct ((97 <=? c) && (c <=? 122)) eqn:E; lia. Qed.
 
-(* to_camel_case panics exactly when the identifier has no significant character or its first
-   significant character is not ASCII *)
-Theorem camel_panics_iff s :
-  is_panic (to_camel_case s) = negb (match first_significant s with Some c => c <? 128 | None => false end).
-Proof.
-  unfold to_camel_case, to_pascal_case. destruct (first_significant s) as [c|] eqn:E.
-  - destruct (pascal_first (all_upper s) s c E) as [r ->]. rewrite aupper_ascii.
-    destruct (c <? 128); reflexivity.
-  - now rewrite (pascal_empty _ s E).
-Qed.
+(* since the /repo fix of to_camel_case (no byte slicing) it never panics, whatever the identifier *)
+Theorem camel_never_panics s : is_panic (to_camel_case s) = false.
+Proof. unfold to_camel_case. destruct (to_pascal_case s); reflexivity. Qed.
 
 Theorem rename_safe_no_panic uc rule ident :
   rename_safe rule ident = true -> is_panic (rename_all_to_case uc ident rule) = false.
@@ -133,7 +126,7 @@ Proof.
   destruct (str_eqb v (lit "UPPERCASE")); [reflexivity|].
   destruct (str_eqb v (lit "PascalCase")); [reflexivity|].
   destruct (str_eqb v (lit "camelCase")).
-  - intros H. rewrite camel_panics_iff, H. reflexivity.
+  - intros _. apply camel_never_panics.
   - intros _. repeat (match goal with |- context [str_eqb v ?x] => destruct (str_eqb v x); [reflexivity|] end).
     reflexivity.
 Qed.
